@@ -33,8 +33,12 @@ pub const WRAP32_US: u64 = (1u64 << 32) * 1000; // 71.6 min
 /// microsecond counters, the seconds/sub-second split of Duration, "one hour"), each landing
 /// `h` ns after the boundary: an age of k*2^32 ns + h with h below the timeout is "expired" for
 /// a correct comparison and "fresh" for a truncating one.
-pub fn hostile_ticks(h: u64) -> [u64; 4] {
-    [WRAP32_NS + h, ONE_S + h, WRAP32_US + h, ONE_H + h]
+pub const WRAP32_MS: u64 = (1u64 << 32) * 1_000_000; // 49.7 days
+pub const WRAP32_S: u64 = (1u64 << 32) * ONE_S; // 136 years (4.29e18 ns; two of them still fit in u64)
+pub const T_150Y: u64 = 150 * 365 * 86_400 * ONE_S; // a finite timeout beyond 2^32 s
+
+pub fn hostile_ticks(h: u64) -> [u64; 6] {
+    [WRAP32_NS + h, ONE_S + h, WRAP32_US + h, ONE_H + h, WRAP32_MS + h, WRAP32_S.saturating_add(h)]
 }
 
 /// Age class used in explorer keys: ages are capped (correct code cannot distinguish ages at or
@@ -307,13 +311,16 @@ impl PollMon {
         if self.p5 {
             self.p5_rot = self.p5_rot.wrapping_add(1);
             let t = if self.timeout == T_INF { 1_000_000 } else { self.timeout };
-            let delta = match self.p5_rot % 8 {
+            let delta = match self.p5_rot % 10 {
                 0 => t.saturating_sub(1),
                 1 => t,
                 2 => t.saturating_add(1),
                 3 => t.saturating_mul(10).saturating_add(7),
                 k => hostile_ticks(t / 2)[(k - 4) as usize],
             };
+            // the mock clock is a u64 of nanoseconds: keep the shifted instants representable
+            // (a saturated clock would make "later" and "much later" the same instant)
+            let delta = delta.min((u64::MAX - self.now) / 4);
             let mut twin = before;
             set_mock_time(self.now.saturating_add(delta));
             let got2 = api("PollingParameterNumberMessageScanner::feed", || twin.feed(&m));
@@ -322,8 +329,8 @@ impl PollMon {
             // ... and whatever was pending before or became pending now is still delivered by a
             // (very) late poll on both twins alike
             if let (Some(c), Some(_)) = (ev.channel(), got2) {
-                if self.timeout != T_INF {
-                    let late = self.now.saturating_add(delta).saturating_add(self.timeout).saturating_add(ONE_H + 1);
+                let late = self.now.checked_add(delta).and_then(|x| x.checked_add(self.timeout)).and_then(|x| x.checked_add(ONE_H + 1));
+                if let (true, Some(late)) = (self.timeout != T_INF, late) {
                     let mut orig = self.real;
                     set_mock_time(late);
                     let pa = api("PollingParameterNumberMessageScanner::poll", || orig.poll(ch(c)));
